@@ -214,6 +214,13 @@ pub enum FinalizeError {
     Execution(bit_machine::ExecutionError),
     /// Type-checking error
     Type(types::Error),
+    /// A witness value does not have the target type of its witness node
+    WitnessTypeMismatch {
+        /// The inferred target type of the witness node
+        expected: std::sync::Arc<types::Final>,
+        /// The type of the provided value
+        got: std::sync::Arc<types::Final>,
+    },
 }
 
 impl fmt::Display for FinalizeError {
@@ -224,6 +231,14 @@ impl fmt::Display for FinalizeError {
             }
             Self::Execution(ref e) => fmt::Display::fmt(e, f),
             Self::Type(ref e) => fmt::Display::fmt(e, f),
+            Self::WitnessTypeMismatch {
+                ref expected,
+                ref got,
+            } => write!(
+                f,
+                "witness value of type {} provided for witness node of type {}",
+                got, expected,
+            ),
         }
     }
 }
@@ -234,6 +249,7 @@ impl std::error::Error for FinalizeError {
             Self::DisconnectRedeemTime => None,
             Self::Execution(ref e) => Some(e),
             Self::Type(ref e) => Some(e),
+            Self::WitnessTypeMismatch { .. } => None,
         }
     }
 }
